@@ -193,7 +193,7 @@ def run(tier, seed):
     if not okh:
         res.tie_broken("harness build failed", hlog[-1500:])
         return res.finish({"obligations": info["obligations"], "discharged": info["discharged"], "checker_cmd": "make", "trusted_base": TRUSTED_COMMON}, [])
-    nh = 80 if tier == "quick" else 6000
+    nh = 80 if tier == "quick" else 800
     hs = [gen_history(rnd, tier) for _ in range(nh)]
     # corpus first: the repository's own Japanese test trie, which forces a relocation
     hs.insert(0, {"op": "trie_history", "alphabet": "じっしつてきになさい", "ops": [{"ins": k, "dump": True} for k in
